@@ -46,7 +46,7 @@ pub fn gen_world(seed: u64, idx: u64, s: &dyn SuiteOps) -> World {
         cred_x.push(7);
     }
     let ksf = gen_ksf(&mut g, fam, true);
-    let k = g.below(3);
+    let k = g.below(5); // default, default, explicit empty, explicit 5 bytes, explicit 255 bytes
     let lid = gen_logical_id(&mut g, k);
     let ids = match &lid {
         LogicalId::Default => WIds::default(),
